@@ -4,7 +4,9 @@ ENTRY = {
                 "ClientID > exact IP > longest prefix > DHCP-lease MAC, own-vs-global settings) is explored by TLC over all histories of three "
                 "finite universes with 5 invariants and 1 action property; every labelled edge TLC prints is walked through a real client.Storage "
                 "behind a real filtering.DNSFilter (edge-covering tours), comparing Find for every identifier/address, FindByName, RangeByName and the "
-                "effective filtering settings of every (ClientID, address) pair after every step; seeded random histories over a larger universe are "
+                "effective filtering settings of every (ClientID, address) pair after every step; ClientSettings.tla enumerates every "
+                "(global value x own value x opt-out switch) combination of the five settings (6144 vectors, clients built as package home builds them) "
+                "and each is replayed; seeded random histories over a larger universe are "
                 "recorded and validated by TraceClients.tla.",
         "design_ref": "DESIGN.md section 4 C04",
         "note": "Trusted: TLC, conc()/abs() of zz_verif_c04_test.go. Exported API only (Storage.Add/Update/RemoveByName/Find/FindByName/RangeByName, "
